@@ -239,6 +239,8 @@ def run(ck, m):
 
 
 MUTANTS = [
+    M("finalize-in-iterate", IT, "RenderIterator._iterate", "                        self.loop = 0\n                        return\n", "                        self.loop = 0\n                        render_data.finalize()\n                        return\n", {"R6"}),
+    M("close-finalizes-unowned", IT, "RenderIterator.close", "            if self._finalize_data:\n                self._render_data.finalize()\n", "            self._render_data.finalize()\n", {"R1", "R6"}),
     M("flag-out-of-finally", TY, "RenderData.finalize",
       "            try:\n                self.render_cls._finalize_render_data_(self)\n            finally:\n                self.finalized = True",
       "            self.render_cls._finalize_render_data_(self)\n            self.finalized = True", {"R1"}),
